@@ -255,6 +255,145 @@ class MapSlot:
         return NotImplemented
 
 
+# ---------------------------------------------------------------- std::vector of scalars
+
+
+class VecIter:
+    """iterator into a Vec: position index (immutable value; ++ produces a new one)"""
+
+    def __init__(self, vec, idx):
+        self.vec = vec
+        self.idx = idx
+
+    def havoc(self, ctx, name):
+        return VecIter(self.vec, ctx.fresh(name + "_pos"))
+
+    def deref(self, I):
+        ctx = I.ctx
+        ctx.oblige("vector-iterator-in-range@%s" % self.vec.name, z3.And(self.idx >= 0, self.idx < self.vec.length(ctx)),
+                   kind="iterator")
+        return self.vec.elem_loc(self.idx)
+
+    def arrow(self, I):
+        return I.ctx.rv(self.deref(I))
+
+    def compare(self, I, op, other):
+        if not isinstance(other, VecIter):
+            raise Gap("vector iterator compared with %r" % (other,))
+        e = self.idx == other.idx
+        if op == "==":
+            return e
+        if op == "!=":
+            return z3.Not(e)
+        if op in ("<", "<=", ">", ">="):
+            return {"<": self.idx < other.idx, "<=": self.idx <= other.idx, ">": self.idx > other.idx,
+                    ">=": self.idx >= other.idx}[op]
+        raise Gap("vector iterator comparison %s" % op)
+
+    def op(self, I, op, rest, n, a0):
+        ctx = I.ctx
+        if op in ("==", "!=", "<", "<=", ">", ">="):
+            return self.compare(I, op, rest[0])
+        if op in ("++", "--"):
+            nv = VecIter(self.vec, self.idx + (1 if op == "++" else -1))
+            if isinstance(a0, Loc):
+                ctx.write(a0, nv)
+                return self if rest else a0
+            return nv
+        if op == "+" and rest and isinstance(rest[0], z3.ExprRef):
+            return VecIter(self.vec, self.idx + rest[0])
+        if op == "-" and rest:
+            if isinstance(rest[0], VecIter):
+                return self.idx - rest[0].idx
+            return VecIter(self.vec, self.idx - rest[0])
+        return NotImplemented
+
+
+class Vec(Obj):
+    """std::vector<T> of scalars: len: Int, data: Array(Int -> Int)"""
+    cls = "std::vector"
+
+    def __init__(self, ctx, name="vec", length=None, data=None, sort=None):
+        Obj.__init__(self, name=name)
+        ctx.store[(self.oid, "len")] = length if length is not None else z3.Int(name + "_len0")
+        ctx.store[(self.oid, "data")] = data if data is not None else z3.Array(name + "_data0", I_, sort or I_)
+
+    def length(self, ctx):
+        return ctx.store[(self.oid, "len")]
+
+    def data(self, ctx):
+        return ctx.store[(self.oid, "data")]
+
+    def elem_loc(self, idx):
+        from .interp import ArrLoc
+        return ArrLoc((self.oid, "data"), idx)
+
+    def m_size(self, I, args, n):
+        return self.length(I.ctx)
+
+    def m_empty(self, I, args, n):
+        return self.length(I.ctx) == 0
+
+    def m_begin(self, I, args, n):
+        return VecIter(self, z3.IntVal(0))
+
+    def m_end(self, I, args, n):
+        return VecIter(self, self.length(I.ctx))
+
+    m_cbegin = m_begin
+    m_cend = m_end
+
+    def index(self, I, idx, n):
+        I.ctx.oblige("vector-index-in-range@%s" % extract.line_of(n), z3.And(idx >= 0, idx < self.length(I.ctx)),
+                     kind="bounds", line=extract.line_of(n))
+        return self.elem_loc(idx)
+
+    def op(self, I, op, rest, n, a0):
+        if op == "[]":
+            return self.index(I, I.ctx.rv(rest[0]), n)
+        return NotImplemented
+
+    def m_at(self, I, args, n):
+        ctx = I.ctx
+        i = ctx.rv(args[0])
+        if not ctx.decide(z3.And(i >= 0, i < self.length(ctx)), "vector.at"):
+            I.throw_from_callee("vector::at", cls="std::out_of_range")
+        return self.elem_loc(i)
+
+    def m_push_back(self, I, args, n):
+        ctx = I.ctx
+        v = ctx.rv(args[0])
+        ln = self.length(ctx)
+        ctx.write(Loc((self.oid, "data")), z3.Store(self.data(ctx), ln, v))
+        ctx.write(Loc((self.oid, "len")), ln + 1)
+        return VOID
+
+    m_emplace_back = m_push_back
+
+    def m_pop_back(self, I, args, n):
+        ctx = I.ctx
+        ctx.oblige("vector-pop_back-nonempty@%s" % extract.line_of(n), self.length(ctx) > 0, kind="bounds")
+        ctx.write(Loc((self.oid, "len")), self.length(ctx) - 1)
+        return VOID
+
+    def m_back(self, I, args, n):
+        ctx = I.ctx
+        ctx.oblige("vector-back-nonempty@%s" % extract.line_of(n), self.length(ctx) > 0, kind="bounds")
+        return self.elem_loc(self.length(ctx) - 1)
+
+    def m_front(self, I, args, n):
+        ctx = I.ctx
+        ctx.oblige("vector-front-nonempty@%s" % extract.line_of(n), self.length(ctx) > 0, kind="bounds")
+        return self.elem_loc(z3.IntVal(0))
+
+    def m_clear(self, I, args, n):
+        I.ctx.write(Loc((self.oid, "len")), z3.IntVal(0))
+        return VOID
+
+    def m_reserve(self, I, args, n):
+        return VOID
+
+
 # ---------------------------------------------------------------- scope guards (mirror of util/scope.h)
 
 
@@ -393,7 +532,7 @@ def fallback_on_exception(I, args, n):
             on_err = ctx.rv(args[2])
             ctx.handler_stack.append(t.exc)
             try:
-                I.call_value(on_err, [("what", t.exc)], n)
+                I.call_value(on_err, [t.exc.what_term(ctx)], n)
             finally:
                 ctx.handler_stack.pop()
         return fb
